@@ -55,6 +55,45 @@ CLAIMED = {
              "(all aliasing patterns, identity-class operands, boundary scalars).",
         note="gnark-crypto's GLV scalar multiplication is modelled by its specification (double-and-add), compared differentially.",
         tech="Coq proof (ring/field identities on coordinate formulas) + differential correspondence", ref="DESIGN.md 6.8"),
+    "C01": dict(
+        text="Theorems (abstract field with partial inverse, abstract module, all inputs): the grouping of openings by "
+             "evaluation point equals the sequential aggregation for every worker count >= 1 and every arrival order of the "
+             "worker results (no opening lost when len mod workers <> 0 or workers > len); hence CreateMultiProof (proof, final "
+             "transcript, error) is schedule independent; the inner IPA argument is complete for every vector length 2^k, "
+             "evaluation point and transcript state, with prover and verifier ending in the same transcript state (premise: "
+             "the drawn round challenges are invertible); shape errors. PARTIAL: the identity <h-g,b(t)> = g2(t)-g1(t) "
+             "linking DivideOnDomain to the verifier is not proved, so end-to-end acceptance of honest statements (all "
+             "shapes: repeated z, gaps, zero/maximal polynomials, shared / non-normalised / sign-flipped commitments, CPU "
+             "counts) is decided by correspondence: Go create/verify vs model incl. next-challenge equality.",
+        note="End-to-end multiproof completeness rests on correspondence for the DivideOnDomain / g2(t) identity.",
+        tech="Coq proof (monoid of tables + permutation invariance; IPA round invariant by induction on k) + differential correspondence", ref="DESIGN.md 6.1"),
+    "C02": dict(
+        text="Theorems: CheckMultiProof / CheckIPAProof of the model return an error exactly on the listed shape defects "
+             "(length mismatches, zero openings, L/R count <> numRounds) and a decision otherwise (total, no partial function); "
+             "prover shape errors in the code's order; the verifier's bit-trick folding scalars equal the recursive fold of the "
+             "textbook verifier. PARTIAL: cryptographic soundness is not a program property; 'the two verifiers always agree' "
+             "and rejection of every single-component perturbation are decided by correspondence with the extracted model as "
+             "the reference verifier (every perturbation class, splices, re-representation, all shape errors incl. panics).",
+        note="Soundness against adversarial proofs is outside any executable model.",
+        tech="Coq proof (case analysis, bit-level induction) + differential correspondence on perturbed proofs", ref="DESIGN.md 6.2"),
+    "C03": dict(
+        text="Theorems: for all inputs the whole result of CreateMultiProof (proof, final transcript state, or error) is the "
+             "same for every worker count >= 1 and every arrival order of worker results; the grouping equals the sequential "
+             "aggregation. Independence from earlier calls: the model is a function (code side: C13 history check). Byte-for-"
+             "byte equality with an independent implementation of the spec is the correspondence itself: Go proof bytes and "
+             "next challenge vs the extracted model (anchored by the repository's published vectors) under several CPU "
+             "affinities / GOMAXPROCS settings and repeated calls.",
+        note="MSM configuration independence (window, splits) is covered by C09; representation independence by C07.",
+        tech="Coq proof (permutation invariance of the fan-in) + byte-exact differential correspondence", ref="DESIGN.md 6.3"),
+    "C04": dict(
+        text="Theorems (abstract field/module, every k): IPA completeness - CreateIPAProof succeeds with k L/R points and "
+             "CheckIPAProof accepts result = <a,b(z)> from the same transcript state, both ending in the same state (premise: "
+             "round challenges invertible); b(z) is the unit vector iff the canonical integer of z <= n-1 (switch exactly "
+             "between 255 and 256), barycentric coefficients otherwise; <a,e_i> = a_i; folding scalars = recursive doubling; "
+             "toy instance evaluated in the kernel. PARTIAL: <a, bary(z)> = p(z) (C18) and rejection of every other result "
+             "are decided by correspondence (model computes p(z) in coefficient form; points 0,1,254..257,2^64,r-1,...).",
+        note="Rejection of wrong results under Fiat-Shamir needs hash behaviour; differential only.",
+        tech="Coq proof (round invariant, induction on k; AAC rewriting for abelian-group regrouping) + differential correspondence", ref="DESIGN.md 6.4"),
     "C06": dict(
         text="Theorems for every byte string: the compressed untrusted decoder accepts iff the exact decidable predicate "
              "accepts32 holds (length 32, value < p, computeY finds a root, Legendre(1-a x^2)=1), is total, and each failing "
